@@ -1,4 +1,4 @@
-(** C29 — proofs, part 1: every prefix of the write log of a valid operation
+(** C29 — proofs, part 1: every prefix of the write log of ANY operation
     sequence recovers to a consistent chain that the node had reached, and
     resuming the remaining operations ends in the same chain. *)
 From Coq Require Import List ZArith NArith Bool Lia.
@@ -24,7 +24,8 @@ Proof. intros A f k v x H. unfold updZ. apply Z.eqb_neq in H. rewrite H. reflexi
 Lemma store_fields : forall d b td,
   let d' := apply_unit d [FBlk b; FTd b td] in
   d_tx d' = d_tx d /\ d_last d' = d_last d /\ d_h2h d' = d_h2h d /\ d_state d' = d_state d /\
-  d_blkd d' = updN (d_blkd d) b true /\ d_td d' = updN (d_td d) b (Some td).
+  d_blkd d' = updN (d_blkd d) b true /\ d_td d' = updN (d_td d) b (Some td) /\
+  d_blk d' = updN (d_blk d) b true.
 Proof. intros d b td. destruct d. cbn. repeat split. Qed.
 
 Lemma state_fields : forall d x,
@@ -37,20 +38,27 @@ Lemma conn_fields : forall d b td,
   let d' := apply_unit d (conn_batch d b td) in
   d_tx d' = updN (d_tx d) (bid b) (Some (bht b)) /\ d_last d' = Some (bht b) /\
   d_h2h d' = updZ (d_h2h d) (bht b) (Some (bid b)) /\ d_state d' = d_state d /\
-  d_blkd d' = updN (d_blkd d) (bid b) true /\ d_td d' = updN (d_td d) (bid b) (Some td).
+  d_blkd d' = updN (d_blkd d) (bid b) true /\ d_td d' = updN (d_td d) (bid b) (Some td) /\
+  d_blk d' = d_blk d.
 Proof. intros d b td. destruct d. cbn. repeat split. Qed.
 
 Lemma disc_fields : forall d b,
   let d' := replay d (disc_units d b) in
   d_tx d' = updN (d_tx d) (bid b) None /\ d_last d' = Some (bht b - 1) /\
   d_h2h d' = updZ (d_h2h d) (bht b) None /\ d_state d' = d_state d /\
-  d_blkd d' = d_blkd d /\ d_td d' = d_td d.
+  d_blkd d' = d_blkd d /\ d_td d' = d_td d /\ d_blk d' = d_blk d.
 Proof. intros d b. destruct d. cbn. repeat split. Qed.
+
+Definition op_block (o : op) : block :=
+  match o with OStore b => b | OConn b => b | ODisc b => b end.
 
 (** * chains and the invariant *)
 
 Section Crash.
 Variable sid : N -> N.
+(** the universe of blocks: a hash identifies a block *)
+Variable U : list block.
+Hypothesis U_fun : forall x y, In x U -> In y U -> bid x = bid y -> x = y.
 
 Definition ids (c : list block) : list N := map bid c.
 
@@ -64,7 +72,7 @@ Fixpoint chain_rec (d : dst) (c : list block) : Prop :=
   | b :: r =>
       bht b = Z.of_nat (length r) /\
       match r with [] => True | t :: _ => bpar b = bid t end /\
-      d_h2h d (bht b) = Some (bid b) /\ d_blkd d (bid b) = true /\
+      d_h2h d (bht b) = Some (bid b) /\ d_blkd d (bid b) = true /\ d_blk d (bid b) = true /\
       d_tx d (bid b) = Some (bht b) /\ d_td d (bid b) = Some (sumd c) /\
       d_state d (sid (bid b)) = true /\
       chain_rec d r
@@ -78,14 +86,22 @@ Record inv (s : pst) : Prop := mkInv {
   i_rec : chain_rec (p_d s) (p_chain s);
   i_above : forall i, Z.of_nat (length (p_chain s)) <= i -> d_h2h (p_d s) i = None;
   i_tx : forall x, ~ In x (ids (p_chain s)) -> d_tx (p_d s) x = None;
-  i_nodup : NoDup (ids (p_chain s))
+  i_nodup : NoDup (ids (p_chain s));
+  i_in : forall x, In x (p_chain s) -> In x U
 }.
 
 Lemma chain_rec_height : forall d c x, chain_rec d c -> In x c -> 0 <= bht x < Z.of_nat (length c).
 Proof.
   induction c as [|b r IH]; intros x H Hx; [destruct Hx|].
-  cbn [chain_rec] in H. destruct H as (Hh & _ & _ & _ & _ & _ & _ & Hr).
+  cbn [chain_rec] in H. destruct H as (Hh & _ & _ & _ & _ & _ & _ & _ & Hr).
   cbn [length]. destruct Hx as [<-|Hx]; [lia|]. specialize (IH x Hr Hx). lia.
+Qed.
+
+Lemma chain_rec_blk : forall d c x, chain_rec d c -> In x (ids c) -> d_blk d x = true.
+Proof.
+  induction c as [|b r IH]; intros x H Hx; [destruct Hx|].
+  cbn [chain_rec] in H. destruct H as (_ & _ & _ & _ & Hb & _ & _ & _ & Hr).
+  destruct Hx as [<-|Hx]; [exact Hb|]. apply IH; assumption.
 Qed.
 
 (** [chain_rec] only looks at heights below the length and at the chain's ids *)
@@ -93,14 +109,15 @@ Lemma chain_rec_ext : forall d d' c,
   chain_rec d c ->
   (forall i, 0 <= i < Z.of_nat (length c) -> d_h2h d' i = d_h2h d i) ->
   (forall x, In x (ids c) -> d_tx d' x = d_tx d x /\ d_td d' x = d_td d x /\
-                             (d_blkd d x = true -> d_blkd d' x = true)) ->
+                             (d_blkd d x = true -> d_blkd d' x = true) /\
+                             (d_blk d x = true -> d_blk d' x = true)) ->
   (forall x, d_state d x = true -> d_state d' x = true) ->
   chain_rec d' c.
 Proof.
   induction c as [|b r IH]; intros H Hh Hx Hs; [exact I|].
   pose proof (chain_rec_height d (b :: r) b H (or_introl eq_refl)) as Hb.
-  cbn [chain_rec] in *. destruct H as (A1 & A2 & A3 & A4 & A5 & A6 & A7 & Hr).
-  destruct (Hx (bid b) (or_introl eq_refl)) as (X1 & X2 & X3).
+  cbn [chain_rec] in *. destruct H as (A1 & A2 & A3 & A4 & A4' & A5 & A6 & A7 & Hr).
+  destruct (Hx (bid b) (or_introl eq_refl)) as (X1 & X2 & X3 & X4).
   repeat split; auto.
   - rewrite Hh; [exact A3|exact Hb].
   - rewrite X1; exact A5.
@@ -110,77 +127,70 @@ Proof.
     + intros x Hin. apply Hx. right. exact Hin.
 Qed.
 
-Lemma memid_false : forall x c, memid x c = false -> ~ In x (ids c).
+Lemma tip_ok_facts : forall d c b, chain_rec d c -> tip_ok c b = true ->
+  bht b = Z.of_nat (length c) /\ match c with [] => True | t :: _ => bpar b = bid t end.
 Proof.
-  intros x c H Hin. unfold ids in Hin. apply in_map_iff in Hin as (y & E & Hy).
-  unfold memid in H. assert (T : existsb (fun y0 => N.eqb (bid y0) x) c = true).
-  { apply existsb_exists. exists y. split; [exact Hy|]. apply N.eqb_eq. exact E. }
-  rewrite T in H. discriminate.
+  intros d c b H Ht. destruct c as [|t r]; cbn [tip_ok] in Ht.
+  - apply Z.eqb_eq in Ht. cbn [length]. split; [lia|exact I].
+  - apply andb_true_iff in Ht as [Hp Hh]. apply N.eqb_eq in Hp. apply Z.eqb_eq in Hh.
+    cbn [chain_rec] in H. destruct H as (Ht' & _). cbn [length]. split; [lia|exact Hp].
 Qed.
 
 (** under the invariant a connect on the tip always finds the parent's td *)
 Lemma td_of_chain : forall d c b,
-  chain_rec d c -> tip_ok c b = true -> bht b = Z.of_nat (length c) ->
-  td_of d b = Some (sumd (b :: c)).
+  chain_rec d c -> tip_ok c b = true -> td_of d b = Some (sumd (b :: c)).
 Proof.
-  intros d c b H Ht Hh. unfold td_of. destruct c as [|t r].
+  intros d c b H Ht. destruct (tip_ok_facts d c b H Ht) as [Hh Hp].
+  unfold td_of. destruct c as [|t r].
   - cbn [length] in Hh. rewrite Hh. cbn. f_equal. lia.
-  - cbn [tip_ok] in Ht. apply N.eqb_eq in Ht.
-    assert (E : (bht b =? 0) = false) by (apply Z.eqb_neq; cbn [length] in Hh; lia).
-    rewrite E, Ht. cbn [chain_rec] in H. destruct H as (_ & _ & _ & _ & _ & Td & _).
+  - assert (E : (bht b =? 0) = false) by (apply Z.eqb_neq; cbn [length] in Hh; lia).
+    rewrite E, Hp. cbn [chain_rec] in H. destruct H as (_ & _ & _ & _ & _ & _ & Td & _).
     rewrite Td. cbn [sumd]. f_equal. lia.
-Qed.
-
-Lemma exec_chain : forall s o, inv s -> op_ok (p_chain s) o = true ->
-  p_chain (fst (exec_op sid s o)) = chain_step (p_chain s) o.
-Proof.
-  intros [d c] o I V. pose proof (i_rec _ I) as R. cbn [p_d p_chain] in *.
-  destruct o as [b|b|b]; cbn [exec_op chain_step p_d p_chain].
-  - reflexivity.
-  - destruct (tip_ok c b) eqn:Ht; [|reflexivity]. cbn [fst p_chain].
-    cbn [op_ok] in V. apply andb_true_iff in V as [Vh _]. apply Z.eqb_eq in Vh.
-    rewrite (td_of_chain _ _ _ R Ht Vh). reflexivity.
-  - destruct c as [|t c']; [reflexivity|].
-    destruct (N.eqb (bid t) (bid b)); reflexivity.
 Qed.
 
 Lemma exec_durable : forall s o, p_d (fst (exec_op sid s o)) = replay (p_d s) (snd (exec_op sid s o)).
 Proof.
   intros [d c] o. destruct o as [b|b|b]; cbn [exec_op p_d p_chain].
   - reflexivity.
-  - destruct (tip_ok c b); reflexivity.
+  - destruct (tip_ok c b && d_blk d (bid b)); reflexivity.
   - destruct c as [|t c']; [reflexivity|].
     destruct (N.eqb (bid t) (bid b)); reflexivity.
 Qed.
 
 (** * every operation preserves the invariant *)
 
-Lemma exec_inv : forall s o, inv s -> op_ok (p_chain s) o = true -> inv (fst (exec_op sid s o)).
+Lemma exec_inv : forall s o, inv s -> In (op_block o) U -> inv (fst (exec_op sid s o)).
 Proof.
   intros [d c] o I V. pose proof (i_rec _ I) as R. cbn [p_d p_chain] in R.
-  destruct o as [b|b|b]; cbn [exec_op p_d p_chain].
+  destruct o as [b|b|b]; cbn [exec_op p_d p_chain op_block] in *.
   - (* store *)
-    cbn [op_ok] in V. apply negb_true_iff in V. apply memid_false in V.
-    unfold store_units. destruct (d_blk d (bid b)); [exact I|].
+    unfold store_units. destruct (d_blk d (bid b)) eqn:Eb; [exact I|].
+    assert (Vn : ~ In (bid b) (ids c)).
+    { intros Hin. rewrite (chain_rec_blk _ _ _ R Hin) in Eb. discriminate. }
     destruct (td_of d b) as [td|]; [|exact I].
     cbn [replay fold_left fst p_d p_chain].
-    destruct (store_fields d (bid b) td) as (E1 & E2 & E3 & E4 & E5 & E6).
-    destruct I as [IL IR IA IT IN]. cbn [p_d p_chain] in *.
+    destruct (store_fields d (bid b) td) as (E1 & E2 & E3 & E4 & E5 & E6 & E7).
+    destruct I as [IL IR IA IT IN IU]. cbn [p_d p_chain] in *.
     constructor; cbn [p_d p_chain].
     + rewrite E2. exact IL.
     + eapply chain_rec_ext; [exact IR| | |].
       * intros i _. rewrite E3. reflexivity.
-      * intros x Hx. rewrite E1, E6, E5. assert (x <> bid b) by (intros ->; contradiction).
+      * intros x Hx. rewrite E1, E6, E5, E7. assert (x <> bid b) by (intros ->; contradiction).
         rewrite !updN_other by assumption. auto.
       * intros x Hx. rewrite E4. exact Hx.
     + intros i Hi. rewrite E3. apply IA. exact Hi.
     + intros x Hx. rewrite E1. apply IT. exact Hx.
     + exact IN.
+    + exact IU.
   - (* connect *)
-    destruct (tip_ok c b) eqn:Ht; [|exact I].
-    cbn [op_ok] in V. apply andb_true_iff in V as [Vh Vn]. apply Z.eqb_eq in Vh.
-    apply negb_true_iff in Vn. apply memid_false in Vn.
-    pose proof (td_of_chain _ _ _ R Ht Vh) as Td.
+    destruct (tip_ok c b) eqn:Ht; [|exact I]. destruct (d_blk d (bid b)) eqn:Eb; [|exact I].
+    cbn [andb].
+    destruct (tip_ok_facts d c b R Ht) as [Vh Vp].
+    assert (Vn : ~ In (bid b) (ids c)).
+    { intros Hin. unfold ids in Hin. apply in_map_iff in Hin as (x & Ex & Hx).
+      assert (x = b) by (apply U_fun; [apply (i_in _ I); exact Hx|exact V|exact Ex]). subst x.
+      pose proof (chain_rec_height _ _ _ R Hx). lia. }
+    pose proof (td_of_chain _ _ _ R Ht) as Td.
     unfold conn_units. rewrite Td. cbn [fst p_d p_chain].
     set (d1 := apply_unit d [FState (sid (bid b))]).
     assert (Ed : replay d [[FState (sid (bid b))]; conn_batch d b (sumd (b :: c))]
@@ -188,25 +198,26 @@ Proof.
     rewrite Ed. clear Ed.
     destruct (state_fields d (sid (bid b))) as (S1 & S2 & S3 & S4 & S5 & S6 & S7 & S8).
     fold d1 in S1, S2, S3, S4, S5, S6, S7, S8.
-    assert (Eb : conn_batch d b (sumd (b :: c)) = conn_batch d1 b (sumd (b :: c))).
+    assert (Eq : conn_batch d b (sumd (b :: c)) = conn_batch d1 b (sumd (b :: c))).
     { unfold conn_batch, next_seq. rewrite S7. reflexivity. }
-    rewrite Eb.
-    destruct (conn_fields d1 b (sumd (b :: c))) as (E1 & E2 & E3 & E4 & E5 & E6).
+    rewrite Eq.
+    destruct (conn_fields d1 b (sumd (b :: c))) as (E1 & E2 & E3 & E4 & E5 & E6 & E7).
     set (d2 := apply_unit d1 (conn_batch d1 b (sumd (b :: c)))) in *.
-    destruct I as [IL IR IA IT IN]. cbn [p_d p_chain] in *.
+    destruct I as [IL IR IA IT IN IU]. cbn [p_d p_chain] in *.
     assert (Rc : chain_rec d2 c).
     { eapply chain_rec_ext; [exact IR| | |].
       - intros i Hi. rewrite E3, S3. apply updZ_other. lia.
       - intros x Hx. assert (x <> bid b) by (intros ->; contradiction).
-        rewrite E1, E6, E5, S1, S6, S5. rewrite !updN_other by assumption. auto.
+        rewrite E1, E6, E5, E7, S1, S6, S5, S8. rewrite !updN_other by assumption. auto.
       - intros x Hx. rewrite E4, S4. unfold updN. destruct (N.eqb x (sid (bid b))); auto. }
     constructor; cbn [p_d p_chain].
     + rewrite E2, Vh. reflexivity.
     + cbn [chain_rec]. repeat split.
       * exact Vh.
-      * destruct c as [|t r]; [exact I|]. cbn [tip_ok] in Ht. apply N.eqb_eq in Ht. exact Ht.
+      * exact Vp.
       * rewrite E3. apply updZ_same.
       * rewrite E5. apply updN_same.
+      * rewrite E7, S8. exact Eb.
       * rewrite E1. apply updN_same.
       * rewrite E6. apply updN_same.
       * rewrite E4, S4. apply updN_same.
@@ -216,12 +227,13 @@ Proof.
       * apply IT. intros Hin. apply Hx. right. exact Hin.
       * intros ->. apply Hx. left. reflexivity.
     + cbn [ids map]. constructor; [exact Vn|exact IN].
+    + intros x [<-|Hx]; [exact V|apply IU; exact Hx].
   - (* disconnect *)
     destruct c as [|t c']; [exact I|].
     destruct (N.eqb (bid t) (bid b)); [|exact I]. cbn [fst p_d p_chain].
-    destruct (disc_fields d t) as (E1 & E2 & E3 & E4 & E5 & E6).
-    destruct I as [IL IR IA IT IN]. cbn [p_d p_chain] in *.
-    cbn [chain_rec] in IR. destruct IR as (Hh & _ & _ & _ & _ & _ & _ & Rr).
+    destruct (disc_fields d t) as (E1 & E2 & E3 & E4 & E5 & E6 & E7).
+    destruct I as [IL IR IA IT IN IU]. cbn [p_d p_chain] in *.
+    cbn [chain_rec] in IR. destruct IR as (Hh & _ & _ & _ & _ & _ & _ & _ & Rr).
     cbn [ids map] in IN. inversion IN as [|? ? Hnt INr]; subst.
     constructor; cbn [p_d p_chain].
     + rewrite E2, Hh. destruct c' as [|t' r]; [right; reflexivity|].
@@ -229,7 +241,7 @@ Proof.
     + eapply chain_rec_ext; [exact Rr| | |].
       * intros i Hi. rewrite E3. apply updZ_other. lia.
       * intros x Hx. assert (x <> bid t) by (intros ->; contradiction).
-        rewrite E1, E6, E5. rewrite updN_other by assumption. auto.
+        rewrite E1, E6, E5, E7. rewrite updN_other by assumption. auto.
       * intros x Hx. rewrite E4. exact Hx.
     + intros i Hi. rewrite E3. destruct (Z.eq_dec i (bht t)) as [->|Ne].
       * apply updZ_same.
@@ -238,26 +250,30 @@ Proof.
       * apply updN_same.
       * rewrite updN_other by exact Ne. apply IT. cbn [ids map]. intros [E|Hin]; [congruence|contradiction].
     + exact INr.
+    + intros x Hx. apply IU. right. exact Hx.
 Qed.
 
 (** a state commit alone (the write between which and the connect batch a
     crash can fall) does not disturb the invariant *)
 Lemma state_inv : forall d c x, inv (mkP d c) -> inv (mkP (apply_unit d [FState x]) c).
 Proof.
-  intros d c x [IL IR IA IT IN]. cbn [p_d p_chain] in *.
-  destruct (state_fields d x) as (S1 & S2 & S3 & S4 & S5 & S6 & _ & _).
+  intros d c x [IL IR IA IT IN IU]. cbn [p_d p_chain] in *.
+  destruct (state_fields d x) as (S1 & S2 & S3 & S4 & S5 & S6 & _ & S8).
   constructor; cbn [p_d p_chain].
   - rewrite S2. exact IL.
   - eapply chain_rec_ext; [exact IR| | |].
     + intros i _. rewrite S3. reflexivity.
-    + intros y _. rewrite S1, S6, S5. auto.
+    + intros y _. rewrite S1, S6, S5, S8. auto.
     + intros y Hy. rewrite S4. unfold updN. destruct (N.eqb y x); auto.
   - intros i Hi. rewrite S3. apply IA. exact Hi.
   - intros y Hy. rewrite S1. apply IT. exact Hy.
   - exact IN.
+  - exact IU.
 Qed.
 
 (** * runs *)
+
+Definition ops_in (ops : list op) : Prop := forall o, In o ops -> In (op_block o) U.
 
 Lemma run_ops_cons : forall s o r,
   run_ops sid s (o :: r) =
@@ -268,41 +284,34 @@ Proof.
   destruct (run_ops sid s1 r) as [s2 lg]. reflexivity.
 Qed.
 
-Fixpoint chain_run (c : list block) (ops : list op) : list block :=
-  match ops with [] => c | o :: r => chain_run (chain_step c o) r end.
-
-Lemma run_inv : forall ops s, inv s -> ops_valid (p_chain s) ops = true ->
-  inv (fst (run_ops sid s ops)) /\ p_chain (fst (run_ops sid s ops)) = chain_run (p_chain s) ops.
+Lemma run_ops_app_fst : forall l1 l2 s,
+  fst (run_ops sid s (l1 ++ l2)) = fst (run_ops sid (fst (run_ops sid s l1)) l2).
 Proof.
-  induction ops as [|o r IH]; intros s I V.
-  - cbn. auto.
-  - cbn [ops_valid] in V. apply andb_true_iff in V as [Vo Vr].
-    rewrite run_ops_cons. cbn [fst chain_run].
-    pose proof (exec_inv s o I Vo) as I1. pose proof (exec_chain s o I Vo) as C1.
-    rewrite <- C1 in Vr. destruct (IH _ I1 Vr) as [I2 C2]. split; [exact I2|].
-    rewrite C2, C1. reflexivity.
+  induction l1 as [|o r IH]; intros l2 s; [reflexivity|].
+  cbn [app]. rewrite !run_ops_cons. cbn [fst]. apply IH.
 Qed.
 
-Lemma ops_valid_firstn : forall ops c j, ops_valid c ops = true -> ops_valid c (firstn j ops) = true.
+Lemma run_inv : forall ops s, inv s -> ops_in ops -> inv (fst (run_ops sid s ops)).
 Proof.
-  induction ops as [|o r IH]; intros c j V; [destruct j; reflexivity|].
-  destruct j; [reflexivity|]. cbn [firstn ops_valid] in *.
-  apply andb_true_iff in V as [Vo Vr]. rewrite Vo. cbn. apply IH. exact Vr.
+  induction ops as [|o r IH]; intros s I V; [exact I|].
+  rewrite run_ops_cons. cbn [fst]. apply IH.
+  - apply exec_inv; [exact I|]. apply V. left. reflexivity.
+  - intros x Hx. apply V. right. exact Hx.
 Qed.
 
-Lemma ops_valid_skipn : forall ops c j, ops_valid c ops = true ->
-  ops_valid (chain_run c (firstn j ops)) (skipn j ops) = true.
+Lemma in_firstn : forall A (l : list A) n x, In x (firstn n l) -> In x l.
 Proof.
-  induction ops as [|o r IH]; intros c j V; [destruct j; reflexivity|].
-  destruct j; [exact V|]. cbn [firstn skipn chain_run] in *.
-  cbn [ops_valid] in V. apply andb_true_iff in V as [_ Vr]. apply IH. exact Vr.
+  induction l as [|y l IH]; intros n x H; destruct n; cbn [firstn] in H; try destruct H.
+  - left. assumption.
+  - right. eapply IH. eassumption.
 Qed.
 
-Lemma chain_run_split : forall ops c j,
-  chain_run (chain_run c (firstn j ops)) (skipn j ops) = chain_run c ops.
+Lemma ops_in_firstn : forall ops j, ops_in ops -> ops_in (firstn j ops).
+Proof. intros ops j V o Ho. apply V. eapply in_firstn. exact Ho. Qed.
+
+Lemma ops_in_skipn : forall ops j, ops_in ops -> ops_in (skipn j ops).
 Proof.
-  induction ops as [|o r IH]; intros c j; [destruct j; reflexivity|].
-  destruct j; [reflexivity|]. cbn [firstn skipn chain_run]. apply IH.
+  intros ops j V o Ho. apply V. rewrite <- (firstn_skipn j ops). apply in_or_app. right. exact Ho.
 Qed.
 
 (** the units of one operation: at most two, and two only for
@@ -314,7 +323,7 @@ Proof.
   intros [d c] o. destruct o as [b|b|b]; cbn [exec_op snd p_d p_chain].
   - unfold store_units. destruct (d_blk d (bid b)); [left; reflexivity|].
     destruct (td_of d b); [right; left; eexists; reflexivity|left; reflexivity].
-  - destruct (tip_ok c b); [|left; reflexivity]. cbn [snd]. unfold conn_units.
+  - destruct (tip_ok c b && d_blk d (bid b)); [|left; reflexivity]. cbn [snd]. unfold conn_units.
     destruct (td_of d b).
     + right; right. do 2 eexists. reflexivity.
     + right; left. eexists. reflexivity.
@@ -359,7 +368,7 @@ Qed.
 Lemma read_chain_inv : forall d c, chain_rec d c -> read_chain d (length c) = Some (ids c).
 Proof.
   induction c as [|b r IH]; intros H; [reflexivity|].
-  cbn [chain_rec] in H. destruct H as (Hh & _ & H2 & Hb & _ & _ & _ & Hr).
+  cbn [chain_rec] in H. destruct H as (Hh & _ & H2 & Hb & _ & _ & _ & _ & Hr).
   cbn [length read_chain]. rewrite <- Hh, H2, Hb, (IH Hr). reflexivity.
 Qed.
 
@@ -369,7 +378,7 @@ Lemma recover_inv : forall s, inv s ->
                     | _ :: r => RChain (Z.of_nat (length r)) (ids (p_chain s))
                     end.
 Proof.
-  intros [d c] [IL IR _ _ _]. cbn [p_d p_chain] in *. unfold recover.
+  intros [d c] [IL IR _ _ _ _]. cbn [p_d p_chain] in *. unfold recover.
   destruct c as [|b r].
   - destruct IL as [-> | ->]; reflexivity.
   - rewrite IL. assert (E : (Z.of_nat (length r) <? 0) = false) by (apply Z.ltb_ge; lia).
@@ -377,72 +386,149 @@ Proof.
     rewrite (read_chain_inv _ _ IR). reflexivity.
 Qed.
 
+(** * simulation: the decisions of the node depend on the durable state only
+    through the stored-rows set, the total difficulties and the last sequence
+    number; a lone state commit changes none of them *)
+
+Definition eqv3 (d d' : dst) : Prop :=
+  (forall x, d_blk d x = d_blk d' x) /\ (forall x, d_td d x = d_td d' x) /\ d_lastseq d = d_lastseq d'.
+
+Lemma eqv3_fact : forall d d' f, eqv3 d d' -> eqv3 (apply_fact d f) (apply_fact d' f).
+Proof.
+  intros d d' f (A & B & C). destruct d, d'. cbn in A, B, C.
+  destruct f; cbn; (split; [|split]); cbn; auto; intros x; unfold updN;
+    try (rewrite A); try (rewrite B); reflexivity.
+Qed.
+
+Lemma eqv3_unit : forall u d d', eqv3 d d' -> eqv3 (apply_unit d u) (apply_unit d' u).
+Proof.
+  induction u as [|f u IH]; intros d d' E; [exact E|]. cbn [apply_unit fold_left].
+  apply IH. apply eqv3_fact. exact E.
+Qed.
+
+Lemma eqv3_replay : forall l d d', eqv3 d d' -> eqv3 (replay d l) (replay d' l).
+Proof.
+  induction l as [|u l IH]; intros d d' E; [exact E|]. cbn [replay fold_left].
+  apply IH. apply eqv3_unit. exact E.
+Qed.
+
+Lemma eqv3_exec : forall d d' c o, eqv3 d d' ->
+  snd (exec_op sid (mkP d c) o) = snd (exec_op sid (mkP d' c) o) /\
+  p_chain (fst (exec_op sid (mkP d c) o)) = p_chain (fst (exec_op sid (mkP d' c) o)) /\
+  eqv3 (p_d (fst (exec_op sid (mkP d c) o))) (p_d (fst (exec_op sid (mkP d' c) o))).
+Proof.
+  intros d d' c o E. pose proof E as (A & B & C).
+  assert (Td : forall b, td_of d b = td_of d' b) by (intros b; unfold td_of; rewrite B; reflexivity).
+  assert (Ns : next_seq d = next_seq d') by (unfold next_seq; rewrite C; reflexivity).
+  destruct o as [b|b|b]; cbn [exec_op p_d p_chain].
+  - assert (Eu : store_units d b = store_units d' b) by (unfold store_units; rewrite A, Td; reflexivity).
+    rewrite Eu. cbn [fst snd p_d p_chain]. split; [reflexivity|]. split; [reflexivity|].
+    apply eqv3_replay. exact E.
+  - rewrite A. destruct (tip_ok c b && d_blk d' (bid b)).
+    + assert (Eu : conn_units sid d b = conn_units sid d' b)
+        by (unfold conn_units, conn_batch; rewrite Td, Ns; reflexivity).
+      rewrite Eu, Td. cbn [fst snd p_d p_chain]. split; [reflexivity|]. split; [reflexivity|].
+      apply eqv3_replay. exact E.
+    + cbn [fst snd p_d p_chain]. split; [reflexivity|]. split; [reflexivity|]. exact E.
+  - destruct c as [|t c'].
+    { cbn [fst snd p_d p_chain]. split; [reflexivity|]. split; [reflexivity|]. exact E. }
+    destruct (N.eqb (bid t) (bid b)).
+    + assert (Eu : disc_units d t = disc_units d' t) by (unfold disc_units; rewrite Ns; reflexivity).
+      rewrite Eu. cbn [fst snd p_d p_chain]. split; [reflexivity|]. split; [reflexivity|].
+      apply eqv3_replay. exact E.
+    + cbn [fst snd p_d p_chain]. split; [reflexivity|]. split; [reflexivity|]. exact E.
+Qed.
+
+Lemma eqv3_run : forall ops d d' c, eqv3 d d' ->
+  p_chain (fst (run_ops sid (mkP d c) ops)) = p_chain (fst (run_ops sid (mkP d' c) ops)).
+Proof.
+  induction ops as [|o r IH]; intros d d' c E; [reflexivity|].
+  rewrite !run_ops_cons. cbn [fst].
+  destruct (eqv3_exec d d' c o E) as (_ & Ec & Ed).
+  destruct (fst (exec_op sid (mkP d c) o)) as [d1 c1].
+  destruct (fst (exec_op sid (mkP d' c) o)) as [d1' c1']. cbn [p_d p_chain] in *. subst c1'.
+  apply IH. exact Ed.
+Qed.
+
+Lemma eqv3_refl : forall d, eqv3 d d.
+Proof. intros d. repeat split. Qed.
+
+Lemma eqv3_state : forall d x, eqv3 d (apply_unit d [FState x]).
+Proof.
+  intros d x. destruct (state_fields d x) as (_ & _ & _ & _ & _ & S6 & S7 & S8).
+  unfold eqv3. rewrite S6, S7, S8. repeat split.
+Qed.
+
 (** * the main theorems *)
 
 (** [consistent_with d c]: the durable records describe exactly the chain [c]
-    (tip first): hash by height, block rows, tx index, total difficulties and
-    states of all its blocks, nothing above its height, no other transaction
-    indexed; and start-up recovers exactly [c]. *)
+    (tip first): last height, hash by height, block rows, tx index, total
+    difficulties and states of all its blocks, nothing above its height, no
+    other transaction indexed; and start-up recovers exactly [c]. *)
 Definition consistent_with (d : dst) (c : list block) : Prop :=
   inv (mkP d c) /\
   recover d = match c with [] => RFresh | _ :: r => RChain (Z.of_nat (length r)) (ids c) end.
 
+(** the best chain of the uninterrupted run after its first [j] operations *)
+Definition chain_after (s : pst) (ops : list op) (j : nat) : list block :=
+  p_chain (fst (run_ops sid s (firstn j ops))).
+
 Theorem crash_consistent : forall (c0 : list block) (d00 : dst) (ops : list op) (k : nat),
-  inv (mkP d00 c0) -> ops_valid c0 ops = true ->
+  inv (mkP d00 c0) -> ops_in ops ->
   let log := snd (run_ops sid (mkP d00 c0) ops) in
   exists j, (j <= length ops)%nat /\
-    consistent_with (replay d00 (firstn k log)) (chain_run c0 (firstn j ops)).
+    consistent_with (replay d00 (firstn k log)) (chain_after (mkP d00 c0) ops j).
 Proof.
-  intros c0 d00 ops k I V log.
+  intros c0 d00 ops k I V log. unfold chain_after.
   destruct (crash_prefix ops (mkP d00 c0) k) as (j & Hj & HH). cbn [p_d] in HH.
   exists j. split; [exact Hj|].
-  destruct (run_inv (firstn j ops) (mkP d00 c0) I (ops_valid_firstn _ _ j V)) as [Ij Cj].
-  cbn [p_chain] in Cj.
+  pose proof (run_inv (firstn j ops) (mkP d00 c0) I (ops_in_firstn _ j V)) as Ij.
   set (sj := fst (run_ops sid (mkP d00 c0) (firstn j ops))) in *.
-  assert (Es : sj = mkP (p_d sj) (chain_run c0 (firstn j ops))) by (destruct sj; cbn in *; subst; reflexivity).
+  assert (Es : sj = mkP (p_d sj) (p_chain sj)) by (destruct sj; reflexivity).
   fold log in HH.
-  assert (Ik : inv (mkP (replay d00 (firstn k log)) (chain_run c0 (firstn j ops)))).
+  assert (Ik : inv (mkP (replay d00 (firstn k log)) (p_chain sj))).
   { destruct HH as [->|(x & ->)].
     - rewrite <- Es. exact Ij.
     - apply state_inv. rewrite <- Es. exact Ij. }
   split; [exact Ik|]. apply (recover_inv _ Ik).
 Qed.
 
-(** resuming: from the recovered state the remaining operations are valid, end
-    in the chain of the uninterrupted run, and the final records are again
-    consistent with it *)
+(** resuming: from the recovered state the remaining operations end in the
+    chain of the uninterrupted run, and the final records are again consistent
+    with it *)
 Theorem resume_same_final : forall (c0 : list block) (d00 : dst) (ops : list op) (k : nat),
-  inv (mkP d00 c0) -> ops_valid c0 ops = true ->
+  inv (mkP d00 c0) -> ops_in ops ->
   let log := snd (run_ops sid (mkP d00 c0) ops) in
   exists j, (j <= length ops)%nat /\
     let dk := replay d00 (firstn k log) in
-    let cj := chain_run c0 (firstn j ops) in
+    let cj := chain_after (mkP d00 c0) ops j in
+    consistent_with dk cj /\
     let send := fst (run_ops sid (mkP dk cj) (skipn j ops)) in
     p_chain send = p_chain (fst (run_ops sid (mkP d00 c0) ops)) /\
     consistent_with (p_d send) (p_chain send).
 Proof.
   intros c0 d00 ops k I V log.
-  destruct (crash_consistent c0 d00 ops k I V) as (j & Hj & Ik & _).
-  exists j. split; [exact Hj|]. intros dk cj send.
-  pose proof (ops_valid_skipn ops c0 j V) as Vs.
-  destruct (run_inv (skipn j ops) (mkP dk cj) Ik Vs) as [Ie Ce].
-  destruct (run_inv ops (mkP d00 c0) I V) as [_ Cf]. cbn [p_chain] in *.
-  fold send in Ie, Ce. split.
-  - rewrite Ce, Cf. apply chain_run_split.
-  - assert (Es : send = mkP (p_d send) (p_chain send)) by (destruct send; reflexivity).
-    split; [rewrite <- Es; exact Ie|]. rewrite Es in Ie. apply (recover_inv _ Ie).
+  destruct (crash_prefix ops (mkP d00 c0) k) as (j & Hj & HH). cbn [p_d] in HH.
+  exists j. split; [exact Hj|]. fold log in HH.
+  set (dk := replay d00 (firstn k log)) in *.
+  set (cj := chain_after (mkP d00 c0) ops j). unfold chain_after in cj. cbv zeta.
+  pose proof (run_inv (firstn j ops) (mkP d00 c0) I (ops_in_firstn _ j V)) as Ij.
+  set (sj := fst (run_ops sid (mkP d00 c0) (firstn j ops))) in *.
+  assert (Es : sj = mkP (p_d sj) (p_chain sj)) by (destruct sj; reflexivity).
+  assert (Ik : inv (mkP dk cj)).
+  { subst dk cj. destruct HH as [->|(x & ->)].
+    - rewrite <- Es. exact Ij.
+    - apply state_inv. rewrite <- Es. exact Ij. }
+  split; [split; [exact Ik|apply (recover_inv _ Ik)]|].
+  set (send := fst (run_ops sid (mkP dk cj) (skipn j ops))).
+  pose proof (run_inv (skipn j ops) (mkP dk cj) Ik (ops_in_skipn _ j V)) as Ie. fold send in Ie.
+  split.
+  - assert (Eq : eqv3 (p_d sj) dk).
+    { subst dk. destruct HH as [->|(x & ->)]; [apply eqv3_refl|apply eqv3_state]. }
+    subst send. rewrite <- (eqv3_run (skipn j ops) (p_d sj) dk cj Eq).
+    subst cj. rewrite <- Es. subst sj. rewrite <- run_ops_app_fst, firstn_skipn. reflexivity.
+  - assert (Ee : send = mkP (p_d send) (p_chain send)) by (destruct send; reflexivity).
+    split; [rewrite <- Ee; exact Ie|]. rewrite Ee in Ie. apply (recover_inv _ Ie).
 Qed.
 
 End Crash.
-
-(** the empty database with no chain satisfies the invariant, also after the
-    flag writes of a first start *)
-Lemma inv_fresh : forall sid, inv sid (mkP (replay d0 (fresh_units d0)) []).
-Proof.
-  intros sid. constructor; cbn.
-  - left. reflexivity.
-  - exact I.
-  - reflexivity.
-  - reflexivity.
-  - constructor.
-Qed.
